@@ -3,6 +3,7 @@ import dis
 import re
 import sys
 import threading
+import time
 import unicodedata
 
 from lib import vlib
@@ -193,6 +194,78 @@ def replay(chk, hy, sched, ev, model_issued, key, as_failure):
     return False
 
 
+def stall_oracle(chk, hy, stalls):
+    """One thread is held (asleep) just before each bytecode of gensym that names _gensym_counter -- i.e. inside the
+    critical section -- for `stall` seconds, while a second thread calls gensym.  With a lock held for as long as it
+    takes, the second thread waits; a timed or skipped acquire shows up as duplicate symbols.  Independent of the
+    translator and of the model: the stall points come from dis of the real function."""
+    gensym = hy.gensym
+    code = gensym.__code__
+    points = [(i.offset, i.opname) for i in dis.get_instructions(gensym) if i.argval == "_gensym_counter"]
+    if not points:
+        chk.count("stall:no-bytecode-names-_gensym_counter")
+        return
+
+    def traced_call(stop_at, stall, stalled):
+        hit = [False]
+
+        def local(frame, event, arg):
+            if event == "opcode" and not hit[0] and frame.f_lasti == stop_at:
+                hit[0] = True
+                stalled.set()
+                time.sleep(stall)
+            return local
+
+        def glob(frame, event, arg):
+            if frame.f_code is code:
+                frame.f_trace_opcodes = True
+                return local
+            return None
+        sys.settrace(glob)
+        try:
+            return [str(gensym("st")), str(gensym("st"))]
+        finally:
+            sys.settrace(None)
+            stalled.set()
+    # the first traced call only switches per-opcode events on
+    w = threading.Thread(target=traced_call, args=(-1, 0, threading.Event()))
+    w.start()
+    w.join()
+    for stall in stalls:
+        for off, opname in points:
+            stalled = threading.Event()
+            res = {}
+
+            def a():
+                try:
+                    res["a"] = traced_call(off, stall, stalled)
+                except Exception as e:  # noqa
+                    res["a"] = ["ERR " + repr(e)]
+
+            def b():
+                stalled.wait(10)
+                try:
+                    res["b"] = [str(gensym("st")), str(gensym("st"))]
+                except Exception as e:  # noqa
+                    res["b"] = ["ERR " + repr(e)]
+            ta, tb = threading.Thread(target=a), threading.Thread(target=b)
+            ta.start()
+            tb.start()
+            ta.join(stall + 60)
+            tb.join(stall + 60)
+            syms = res.get("a", []) + res.get("b", [])
+            chk.count("stall-trials")
+            chk.case(("stall", off, stall), nontrivial=True)
+            inp = {"stalled_thread_before": "%s@%d" % (opname, off), "stall_seconds": stall, "other_thread": "2 calls of hy.gensym"}
+            how = ("thread A traced with sys.settrace/f_trace_opcodes sleeps %.1f s before the bytecode at offset %d of hy.gensym; "
+                   "thread B then calls hy.gensym twice" % (stall, off))
+            if any(x.startswith("ERR") for x in syms):
+                chk.fail("gensym-raised-while-another-thread-was-stalled", inp, syms, "symbols", how)
+            elif len(set(syms)) != len(syms):
+                chk.fail("duplicate-symbols-when-a-thread-is-stalled-in-the-critical-section", inp, {"symbols": syms},
+                         "pairwise distinct symbols", how)
+
+
 def stress(chk, hy, rounds, nthreads, ncalls):
     old = sys.getswitchinterval()
     sys.setswitchinterval(1e-6)
@@ -285,6 +358,8 @@ def run(chk):
         "(Add and all other bytecodes are thread-local); threading.Lock gives mutual exclusion",
         "'already mangled' = hy.mangle(symbol) == symbol; 'distinct' = distinct symbol texts",
         "exceptions are considered only inside gensym's try body (what its finally clause protects)",
+        "a thread can be held inside the critical section for as long as the stall oracle waits (2.5 s quick, 6 s thorough); "
+        "an acquire timeout longer than that would not be noticed by the oracle (the proof obligation still breaks)",
     ]
     chk.matchers["gensym_dotted_argument_raises"] = dotted_matcher
     ok = chk.prove("Props/C38.v", ["Props/C38.vo"], [mangle_tables.translate, gensym_steps.translate])
@@ -303,6 +378,12 @@ def run(chk):
         stress(chk, hy, 16, 8, 3000)
     else:
         stress(chk, hy, 6, 8, 1500)
+    # ---- a thread held inside the critical section while another one calls gensym
+    try:
+        stall_oracle(chk, hy, [2.5, 6.0] if thorough else [2.5])
+    except Exception as e:  # noqa
+        import traceback
+        chk.obligation("stall runs completed", False, traceback.format_exc()[-1500:])
     # every argument once, single-threaded, incl. distinctness across arguments for one number range
     singles = []
     for a in ARGS:
